@@ -362,10 +362,15 @@ Definition spec_expired (now gr : Z) (c : cls) : bool :=
 (** the staple is unparseable or past NextUpdate: now > NextUpdate *)
 Definition spec_stale (now : Z) (c : cls) : bool :=
   match as_staple c with Some nu => nu <? now | None => true end.
-(** k is an OCSP staple (direct child of ocsp/) that is unparseable or past NextUpdate *)
+(** k is (or lies under) an OCSP staple -- a terminal key directly in ocsp/ -- that is
+    unparseable or past NextUpdate *)
+Definition j_staple_by (now : Z) (s0 : store) (k a : key) : bool :=
+  if childb spec_ocsp a then
+    if covers a k then match file s0 a with Some (_, c) => spec_stale now c | None => false end
+    else false
+  else false.
 Definition j_staple (now : Z) (s0 : store) (k : key) : bool :=
-  childb spec_ocsp k &&
-  match file s0 k with Some (_, c) => spec_stale now c | None => false end.
+  existsb (j_staple_by now s0 k) (map fst s0).
 (** k is (or lies under) X.crt, X.key or X.json where X.crt is a file directly in a site
     folder that parses as a certificate expired for at least the grace period *)
 Definition j_cert_by (now gr : Z) (s0 : store) (k a : key) : bool :=
@@ -408,3 +413,64 @@ Definition bracketedb (l : list event) : bool :=
   | _ => false
   end.
 Definition mutates (k : opk) : bool := match k with KDelete | KStore => true | _ => false end.
+
+(** *** vocabulary about logs *)
+Definition has_kind (p : opk -> bool) (l : list event) : bool := existsb (fun ev => p (ev_kind ev)) l.
+Definition stored_ok (l : list event) : bool :=
+  existsb (fun ev => match ev_kind ev with KStore => seqb (ev_key ev) spec_last_clean && ev_ok ev | _ => false end) l.
+Definition does_work (k : opk) : bool :=
+  match k with KList | KStat | KDelete | KStore => true | _ => false end.
+
+(** *** merged traces of several cleaners *)
+Record tev := TEv { te_tid : nat; te_ev : event }.
+Definition proj (t : nat) (tr : list tev) : list event :=
+  map te_ev (filter (fun x => Nat.eqb (te_tid x) t) tr).
+Definition holds (h : option nat) (t : nat) : bool :=
+  match h with Some t' => Nat.eqb t' t | None => false end.
+
+(** mutual exclusion and bracketing on the merged trace: a cleaner issues storage calls only
+    while it holds the lock, takes it only when it is free, releases only what it holds; the
+    lock is free at the end *)
+Fixpoint under_lock (holder : option nat) (tr : list tev) : bool :=
+  match tr with
+  | [] => match holder with None => true | Some _ => false end
+  | x :: r =>
+      let t := te_tid x in
+      match ev_kind (te_ev x) with
+      | KLock =>
+          seqb (ev_key (te_ev x)) spec_lock &&
+          if ev_ok (te_ev x)
+          then match holder with None => under_lock (Some t) r | Some _ => false end
+          else negb (holds holder t) && under_lock holder r
+      | KUnlock =>
+          seqb (ev_key (te_ev x)) spec_lock && holds holder t && under_lock None r
+      | _ => holds holder t && under_lock holder r
+      end
+  end.
+
+(** what one cleaner may do, seen alone: a sequence of bracketed logs ([inside] = it holds the lock) *)
+Fixpoint accepts (inside : bool) (l : list event) : bool :=
+  match l with
+  | [] => negb inside
+  | ev :: r =>
+      match ev_kind ev with
+      | KLock => seqb (ev_key ev) spec_lock && negb inside && accepts (ev_ok ev) r
+      | KUnlock => seqb (ev_key ev) spec_lock && inside && accepts false r
+      | _ => inside && accepts inside r
+      end
+  end.
+
+(** what the Locker guarantees (lock events only): Lock succeeds only while the lock is free *)
+Fixpoint locker_ok (h : option nat) (tr : list tev) : bool :=
+  match tr with
+  | [] => true
+  | x :: r =>
+      match ev_kind (te_ev x) with
+      | KLock =>
+          if ev_ok (te_ev x)
+          then match h with None => locker_ok (Some (te_tid x)) r | Some _ => false end
+          else locker_ok h r
+      | KUnlock => locker_ok (if holds h (te_tid x) then None else h) r
+      | _ => locker_ok h r
+      end
+  end.
